@@ -363,7 +363,7 @@ def program_cases(draw, n_inputs=(4, 10), **kw):
 # --------------------------------------------------------------------------- large shapes (C07)
 @st.composite
 def big_programs(draw, pool=PLAIN_POOL):
-    kind = draw(st.sampled_from(["chain", "nest", "groups", "pred"]))
+    kind = draw(st.sampled_from(["chain", "nest", "groups", "pred", "flat-bool"]))
     env = _Env(draw, pool, 6, SIMPLE_STRS)
     labels = _Labels(draw, False)
     if kind == "chain":
@@ -385,6 +385,18 @@ def big_programs(draw, pool=PLAIN_POOL):
         if draw(st.booleans()):
             f = env.field("str")
             body = M.if_([(M.cmp_(M.ident(f), "!=", M.lit_str("zz")), body)], labels.ret(1, "nice"))
+    elif kind == "flat-bool":
+        # long flat and/or chains: a == 1 or a == 2 or ... (left-nested by the grammar)
+        n = draw(st.integers(13, 100))
+        f = env.field("num")
+        g = env.field("str")
+        op = draw(st.sampled_from(["or", "and"]))
+        p = M.cmp_(M.ident(f), "==" if op == "or" else "!=", M.lit_int("0"))
+        for i in range(1, n):
+            q = (M.cmp_(M.ident(f), "==" if op == "or" else "!=", M.lit_int(str(i))) if i % 3 else
+                 M.cmp_(M.ident(g), "==" if op == "or" else "!=", M.lit_str("s%d" % i)))
+            p = (M.or_ if op == "or" else M.and_)(p, q)
+        body = M.if_([(p, labels.ret(2, "nice"))], labels.ret(2, "nice") if draw(st.booleans()) else None)
     else:
         n = draw(st.integers(4, 12))
         f = env.field("num")
